@@ -88,7 +88,9 @@ def td_proposal(cfg):
         births = [P.NormalBirth([c], {c: 1.0}, {c: 1.0}) for c in comps]
     else:
         births = [P.LogNormalBirth([c], {c: 0.3}, {c: 0.6}) for c in comps]
-    mp = P.BoundedDiscrete(['k'], boundaries={'k': (0, n)}, successive={'k': cfg['successive']})
+    # index bounds may be given as non-integers: "the floor (ceil) of the lower (upper) bound will be used" - the same range 0..n
+    kb = (0.5, n - 0.5) if cfg.get('k_bounds_frac') else (0, n)
+    mp = P.BoundedDiscrete(['k'], boundaries={'k': kb}, successive={'k': cfg['successive']})
     return P.NestedTransdimensional(comps + ['k'], mp, tds, births)
 
 
@@ -111,6 +113,7 @@ def gen(rng, kind=None, allow_annealer=True):
         cfg.update(td_n=rng.choice([2, 3, 4]), td_family=rng.choice(['normal', 'adaptive_normal', 'ss_adaptive_normal', 'at_adaptive_normal', 'bounded_normal']),
                    birth=rng.choice(['uniform', 'normal', 'lognormal']), successive=rng.random() < 0.5,
                    birth_bounds=rng.choice([(0., 4.), (0., 4.), (1., 3.), (0.5, 2.0)]))
+        cfg['k_bounds_frac'] = cfg['mixseed'] % 3 == 0          # (no extra draw: the random stream of the other fields is unchanged)
     return cfg
 
 
